@@ -420,6 +420,11 @@ def e2e_configs(tier):
         # nodata 0 (a falsy value), given as `nodata` or as `_FillValue` attribute
         dict(base, H=50, W=70, dtype="uint8", nodata=0),
         dict(base, H=33, W=40, dtype="int16", nodata=0, nodata_attr="_FillValue", compression="none"),
+        dict(base, H=33, W=40, dtype="float32", nodata=0.0),
+        dict(base, H=33, W=40, dtype="float32", nodata=float("nan")),
+        dict(base, H=33, W=40, dtype="float64", nodata=float("nan"), nodata_attr="_FillValue", stats=True),
+        dict(base, H=33, W=40, dtype="uint8", nodata=0, fill_value_attr=255),      # both attributes, `nodata` wins
+        dict(base, H=33, W=40, dtype="uint8", nodata=255, fill_value_attr=0, axis="YXS", S=2),
         # source arrays in non-native byte order
         dict(base, H=50, W=70, dtype=">u2"),
         dict(base, H=33, W=40, axis="SYX", S=2, dtype=">i4", compression="none", band_chunk=1),
@@ -451,6 +456,10 @@ def e2e_configs(tier):
             c["predictor"] = rng.choice([False, True])
         if rng.random() < 0.3:
             c["nodata"] = rng.choice([0, 1, 255 if np.dtype(c["dtype"]).kind == "u" else -3])
+            if np.dtype(c["dtype"]).kind == "f" and rng.random() < 0.4:
+                c["nodata"] = rng.choice([float("nan"), 0.0])
+            elif rng.random() < 0.25:
+                c["fill_value_attr"] = 7 if c["nodata"] != 7 else 9
             if rng.random() < 0.3:
                 c["nodata_attr"] = "_FillValue"
         if rng.random() < 0.12 and np.dtype(c["dtype"]).itemsize > 1:
@@ -748,7 +757,8 @@ def check_file(cfg, rec):
             msgs.append(f"{name}: pixel {bad} decodes to {arr[tuple(bad)]!r}, input {p3[tuple(bad)]!r}")
         else:
             padv = np.concatenate([arr[:, H:, :].ravel(), arr[:, :H, W:].ravel()])
-            if padv.size and not np.all(padv == np.asarray(fill).astype(pix.dtype)):
+            fillv = np.asarray(fill).astype(pix.dtype)
+            if padv.size and not (np.all(np.isnan(padv)) if (pix.dtype.kind == "f" and np.isnan(fillv)) else np.all(padv == fillv)):
                 msgs.append(f"{name}: padding is not the fill value {fill}")
     gb = rec["gbox"]
     want_tr = tuple(gb.transform)[:6]
@@ -756,7 +766,10 @@ def check_file(cfg, rec):
         msgs.append(f"transform {info['transform']} != {want_tr}")
     if str(info["crs"]).upper() != str(gb.crs).upper():
         msgs.append(f"crs {info['crs']} != {gb.crs}")
-    if (cfg.get("nodata") is None) != (info["nodata"] is None) or (cfg.get("nodata") is not None and float(info["nodata"]) != float(cfg["nodata"])):
+    same_nd = (cfg.get("nodata") is None and info["nodata"] is None) or (
+        cfg.get("nodata") is not None and info["nodata"] is not None and
+        (float(info["nodata"]) == float(cfg["nodata"]) or (np.isnan(float(info["nodata"])) and np.isnan(float(cfg["nodata"])))))
+    if not same_nd:
         msgs.append(f"nodata {info['nodata']} != {cfg.get('nodata')}")
     if info["overviews"] != [2 ** k for k in range(1, n + 1)]:
         msgs.append(f"GDAL sees overviews {info['overviews']}, file has {n}")
